@@ -104,6 +104,7 @@ def run(chk):
                        "with the extracted model; plus LSODA-driven updates (shared with C01) where the stored snapshot must equal the model's update; "
                        "non-trivial = at least one grain floored and at least one not")
     bad = []
+    hist_fail = []
     rng = np.random.default_rng(chk.seed)
     if br.drivers.get("core", 1) is None:
         N = 600 if chk.tier == "quick" else 6000
@@ -142,12 +143,42 @@ def run(chk):
                 sc["params"]["gbm_mobility"] = float(rng.uniform(50, 200))
                 h = c01.run_history(rec, sc)
                 c01.validate_traces(chk, h, tb)
+            # sliding acts after EVERY update, whatever the regime: textures that start with grains below
+            # the threshold, in every accepted regime (incl. the ones with static volumes)
+            for regime in (0, 1, 6, 7, 4):
+                for _ in range(1 if chk.tier == "quick" else 6):
+                    sc = MT.scenario(rng, regime=regime, tkind="nonuniform", n=int(rng.integers(4, 12)), nupd=2, strain=0.5)
+                    sc["params"]["gbs_threshold"] = float(rng.uniform(0.3, 0.9))
+                    h = c01.run_history(rec, sc)
+                    c01.validate_traces(chk, h, tb)
+                    m, chi, n = h["mineral"], sc["params"]["gbs_threshold"], sc["n"]
+                    for k, u in enumerate(h["updates"]):
+                        tr = u["trace"]
+                        if tr.error is not None or not tr.step_ys or k + 1 >= len(m.orientations):
+                            continue
+                        ylast = tr.step_ys[-1]
+                        f_int = np.clip(ylast[9 + 9 * n:], 0, None)
+                        f_int = f_int / f_int.sum()
+                        masked = f_int < chi / n
+                        if masked.any() and not np.array_equal(np.asarray(m.orientations[k + 1])[masked],
+                                                               np.asarray(m.orientations[k])[masked]):
+                            tb.append((sc, f"update {k} in regime {regime}: a grain below chi/n did not keep its start-of-update orientation"))
+                        floored = np.where(masked, chi / n, f_int)
+                        if np.abs(np.asarray(m.fractions[k + 1]) - floored / floored.sum()).max() > 1e-12:
+                            tb.append((sc, f"update {k} in regime {regime}: stored volumes are not the floored and renormalised integrated volumes"))
         bad += [(None, m) for _, m in tb]
+        hist_fail = [(sc_, m) for sc_, m in tb if isinstance(sc_, dict) and ("did not keep" in m or "stored volumes" in m)]
         chk.cov["traces_validated_against_impl"] = chk.cov["evaluations"]
     chk.cov["disagreements"] = len(bad)
     if ok and not bad:
         return
     found = []
+    if br.drivers.get("core", 1) is None and hist_fail:
+        sc_, m = hist_fail[0]
+        chk.replay({"kind": "property-violation", "call": "Mineral.update_orientations (history)", "scenario": c01.encode_sc(sc_),
+                    "observed": [m for _, m in hist_fail[:4]], "required": "C09", "broken": chk.cov.get("broken_obligations", []),
+                    "disagreements": [m for _, m in bad[:3]]})
+        return
     pool = [c for c, _ in bad if c is not None] + [gen_case(rng) for _ in range(400)]
     for c in pool:
         fails = oracle(utils, c)
